@@ -12,6 +12,7 @@ from oracles import sphere
 from vlib.core import HELD, VIOLATED, Check, result
 
 CLASSES = [
+    "api_sequences",
     "uniform",
     "poles",
     "ra_wrap",
@@ -206,6 +207,60 @@ class C14(Check):
             out.append(result(HELD, cls=cls, counters=counters,
                               sample=dict(cls=cls, n=n, first_pair=[ra1[0], dec1[0], ra2[0], dec2[0]],
                                           max_err=float(err.max()) if len(err) else None)))
+            return out
+
+        if cls == "api_sequences":
+            # small batches (1..6 vectors), objects whose coordinates are updated in place between two queries,
+            # and operands that are views of one array
+            evals = 0
+            for m in (1, 2, 3, 4, 5, 6):
+                ra, dec = _uniform(rng, m)
+                C = AngularCoordinates(np.column_stack([ra, dec]))
+                xyz = C.to_3d()
+                ref_xyz = sphere.to_xyz(ra, dec)
+                if xyz.shape != (m, 3) or np.abs(xyz - ref_xyz).astype(float).max() > 3e-16:
+                    bad("to_3d:small-batch", dict(m=m, shape=xyz.shape))
+                    continue
+                back = AngularCoordinates.from_3d(xyz)
+                one_by_one = np.concatenate([AngularCoordinates.from_3d(v).data for v in xyz])
+                evals += 2 * m
+                if back.data.shape != (m, 2) or not np.array_equal(back.data, one_by_one):
+                    bad("from_3d:batch-differs-from-single-vectors", dict(m=m, batch=back.data.tolist(), single=one_by_one.tolist()))
+                sep = sphere.separation(ra, dec, back.ra, back.dec).astype(float) if back.data.shape == (m, 2) else np.array([np.inf])
+                if np.any(sep > from3d_bound(ra, dec)):
+                    bad("from_3d:not-inverse", dict(tag=f"batch{m}", ra=ra.tolist(), dec=dec.tolist(), back=back.data.tolist()))
+            for _ in range(20):
+                m = int(rng.integers(2, 50))
+                ra, dec = _uniform(rng, m)
+                C = AngularCoordinates(np.column_stack([ra, dec]))
+                D = AngularCoordinates(np.column_stack(_uniform(rng, 1)))
+                C.to_3d(), C.distance(D), C.mean()  # first queries
+                ra2, dec2 = _uniform(rng, m)
+                C.data[:, 0], C.data[:, 1] = ra2, dec2  # the coordinates are updated in place
+                evals += 3 * m
+                if np.abs(C.to_3d() - sphere.to_xyz(ra2, dec2)).astype(float).max() > 3e-16:
+                    bad("to_3d:stale-after-in-place-update", dict(m=m))
+                ref = sphere.separation(ra2, dec2, D.ra[0], D.dec[0])
+                if np.any(np.abs(np.asarray(C.distance(D).data, dtype=np.longdouble) - ref).astype(float) > dist_bound(ref)):
+                    bad("distance:stale-after-in-place-update", dict(m=m))
+                refv, norm = sphere.mean_direction(ra2, dec2, None)
+                if float(norm) > 1e-2:
+                    got = C.mean()
+                    if float(sphere.separation_xyz(sphere.to_xyz(got.ra, got.dec)[0], refv)) > 1e-13:
+                        bad("mean:stale-after-in-place-update", dict(m=m))
+                # operands that share memory: consecutive separations along a track, a set against its reverse
+                ref = sphere.separation(ra2[:-1], dec2[:-1], ra2[1:], dec2[1:])
+                got = C[:-1].distance(C[1:]).data
+                if got.shape != (m - 1,) or np.any(np.abs(np.asarray(got, dtype=np.longdouble) - ref).astype(float) > dist_bound(ref)):
+                    bad("distance:views-of-one-array", dict(m=m, how="consecutive"))
+                ref = sphere.separation(ra2, dec2, ra2[::-1], dec2[::-1])
+                got = C.distance(C[::-1]).data
+                if got.shape != (m,) or np.any(np.abs(np.asarray(got, dtype=np.longdouble) - ref).astype(float) > dist_bound(ref)):
+                    bad("distance:views-of-one-array", dict(m=m, how="reversed"))
+                same = C.distance(C).data
+                if np.any(same != 0.0):
+                    bad("distance:self-not-zero", dict(m=m))
+            out.append(result(HELD, cls=cls, counters=dict(coord_roundtrip_evals=evals), sample=dict(cls=cls)))
             return out
 
         if cls == "one_to_many":
